@@ -794,6 +794,9 @@ func (m *Machine) capAtLeast(cur, need *Term) *Term {
 }
 
 func (m *Machine) bufGrewTo(th *Thread, p *Value) {
+	if !m.env.usesBufCap {
+		return // nobody in the module under test can observe the capacity
+	}
 	m.absCaps[p] = m.capAtLeast(m.bufCap(p), th.strLenTerm(m.bufContent(p)))
 }
 
